@@ -252,7 +252,12 @@ func visitInstr(fr *frame, instr ssa.Instruction) continuation {
 		fr.get(instr.Chan).(chan value) <- fr.get(instr.X)
 
 	case *ssa.Store:
-		store(mustDeref(instr.Addr.Type()), fr.get(instr.Addr).(*value), fr.get(instr.Val))
+		addr := fr.get(instr.Addr).(*value)
+		if addr == nil {
+			panic(targetPanic{iface{fr.i.runtimeErrorString, "invalid memory address or nil pointer dereference"}})
+		}
+		fr.i.m.storeHook(fr, addr)
+		store(mustDeref(instr.Addr.Type()), addr, fr.get(instr.Val))
 
 	case *ssa.If:
 		succ := 1
